@@ -69,6 +69,10 @@ pub trait Check: Sync {
     fn exec(&self, scenario: &Value) -> Outcome;
     /// smaller variants of a scenario (for delta debugging)
     fn shrink(&self, scenario: &Value) -> Vec<Value>;
+    /// reduce `sc` to the ingredients of an already minimised scenario (shortcut for repeated causes)
+    fn restrict(&self, _sc: &Value, _other: &Value) -> Option<Value> {
+        None
+    }
     /// extra evidence keys computed by the supervisor process (e.g. calibration)
     fn extra_evidence(&self) -> Value {
         json!({})
@@ -589,14 +593,32 @@ pub fn run_check(check: &dyn Check, tier: Tier) -> i32 {
     // violations whose signature embeds the scenario label (process deaths, allocation budget) are
     // minimised first, so that the signature names the minimal scenario
     let mut pre = 0;
+    let mut minimal: Vec<Value> = Vec::new();
     for f in sum.found.iter_mut() {
-        if f.violations.len() == 1 && label_class(&f.violations[0].sig).is_some() && pre < 150 {
-            pre += 1;
+        if f.violations.len() == 1 && label_class(&f.violations[0].sig).is_some() {
             let sig = f.violations[0].sig.clone();
             let in_child = !sig.starts_with("alloc:");
-            let (min, _steps) = shrink(check, f.scenario.clone(), &sig, in_child, 60);
-            let vs = if in_child { exec_in_child(id, &min) } else { exec_guarded(check, &min).violations };
             let p = label_class(&sig).unwrap();
+            // shortcut: does an already minimised scenario explain this one?
+            let mut explained = false;
+            for m in &minimal {
+                if let Some(r) = check.restrict(&f.scenario, m) {
+                    let vs = if in_child { exec_in_child(id, &r) } else { exec_guarded(check, &r).violations };
+                    if let Some(v) = vs.into_iter().find(|v| v.sig.starts_with(p)) {
+                        f.scenario = r;
+                        f.violations = vec![v];
+                        explained = true;
+                        break;
+                    }
+                }
+            }
+            if explained || pre >= 40 {
+                continue;
+            }
+            pre += 1;
+            let (min, _steps) = shrink(check, f.scenario.clone(), &sig, in_child, 60);
+            minimal.push(min.clone());
+            let vs = if in_child { exec_in_child(id, &min) } else { exec_guarded(check, &min).violations };
             if let Some(v) = vs.into_iter().find(|v| v.sig.starts_with(p)) {
                 f.scenario = min;
                 f.violations = vec![v];
